@@ -9,6 +9,7 @@ import (
 	"sort"
 	"strings"
 	"unicode"
+	"unsafe"
 )
 
 // Field returns the named (possibly unexported) field of struct pointer/struct v; ok=false if absent.
@@ -199,4 +200,41 @@ func skipType(t reflect.Type) bool {
 	}
 	n := t.Name()
 	return strings.Contains(n, "Logger") || strings.Contains(n, "logger")
+}
+
+// FieldV is Field for a reflect.Value (which may itself come from an unexported field).
+func FieldV(rv reflect.Value, name string) (reflect.Value, bool) {
+	for rv.IsValid() && (rv.Kind() == reflect.Ptr || rv.Kind() == reflect.Interface) {
+		if rv.IsNil() {
+			return reflect.Value{}, false
+		}
+		rv = rv.Elem()
+	}
+	if !rv.IsValid() || rv.Kind() != reflect.Struct {
+		return reflect.Value{}, false
+	}
+	f := rv.FieldByName(name)
+	return f, f.IsValid()
+}
+
+// Iface returns the value as interface{} even if it was obtained through unexported fields,
+// provided it is addressable (reached through a pointer).
+func Iface(v reflect.Value) (interface{}, bool) {
+	if !v.IsValid() {
+		return nil, false
+	}
+	if v.CanInterface() {
+		return v.Interface(), true
+	}
+	if v.CanAddr() {
+		return reflect.NewAt(v.Type(), unsafe.Pointer(v.UnsafeAddr())).Elem().Interface(), true
+	}
+	return nil, false
+}
+
+// ValueV dumps a reflect.Value canonically.
+func ValueV(v reflect.Value) string {
+	var sb strings.Builder
+	write(&sb, v, 0)
+	return sb.String()
 }
